@@ -383,7 +383,7 @@ impl Prop for C06 {
             Leg {
                 name: "random",
                 kind: LegKind::Random {
-                    cases: tier.pick(1000, 25_000),
+                    cases: tier.pick(30000, 250000),
                 },
                 workers: 16,
                 build: Build::Normal,
